@@ -15,11 +15,21 @@ META = {
             "malformed inputs; the bytes produced by the REAL encoders (easy/stream/block buffer encoders, multi-call stream encoder "
             "with flushes, threaded encoder, .lzma encoder) are validated field by field by the Lean structural validator and, "
             "independently, by a Python parser written from the format document, plus a round trip through the C decoder and the "
-            "system's liblzma; single-call encoders are run with out_size = bound(n) on incompressible data.",
+            "system's liblzma; single-call encoders are run with out_size = bound(n) on incompressible data. "
+            "Whole containers: executable models of the container ENCODERS (multi-call Stream encoder, single-call Block/Stream encoders "
+            "with the uncompressed fall-back, the threaded encoder's late-written Block Headers, .lzma header), parametric in the payload "
+            "encoder, are proved to write only files that the container DECODER model accepts and decodes to the input, hence instances of "
+            "the declarative grammar ValidXz (every size field, Index Record, Backward Size, flags, CRC32, Check, padding truthful), given "
+            "the payload contract decode(encode x ++ rest) = x; and lzma_stream_buffer_encode with out_size = lzma_stream_buffer_bound(n) "
+            "is proved never to return LZMA_BUF_ERROR for any payload encoder. Tie of those encoder models: fed with the C encoder's own "
+            "per-Block Compressed Data they must reproduce the C output byte for byte (all seven encoder APIs, incl. the fall-back decision).",
     "note": "Trusted: Lean kernel (+ one bv_decide lemma about the dictionary-size bit smearing, namespace XzVerif.BitWords); the probe "
             "that prints Gen/C02.lean; the harness; the C compiler. The LZMA payload itself is decoded by the C decoder (and Python's "
             "liblzma), not yet by a Lean LZMA decoder; 'no match reaches farther back than the declared dictionary' is therefore only "
-            "observed through those decoders. SHA-256 Check values are verified by Python hashlib, not by the Lean validator.",
+            "observed through those decoders. SHA-256 Check values are verified by Python hashlib, not by the Lean validator. "
+            "The container-encoder theorems take the payload contract as a hypothesis (Props/C01 proves it for the LZMA1 models and per "
+            "chunk for LZMA2); the model decides the single-call fall-back by 'complete payload longer than the limit', which equals the C "
+            "behaviour if the raw encoder's output does not depend on the output space offered (C06); output slicing is not modelled here.",
     "technique": "Lean 4 proof over an executable model + regenerated tables/kernels + differential correspondence + structural validation of real encoder output",
 }
 
@@ -690,6 +700,14 @@ def gen_rel(ctx):
             # several encoder instances at once: keep each one's dictionary small
             toks[-1] = ":".join(toks[-1].split(":")[:2] + [str(rng.choice((4096, 65536, 1 << 20)))] + toks[-1].split(":")[3:])
             bs = rng.choice((0, 4096, 5000, 65536, 65537, 100000, 1 << 20))
+            if rng.random() < 0.25:
+                # block sizes whose VLI is a byte shorter than that of lzma_block_buffer_bound64(block_size) (the worker must reserve
+                # the Block Header space from the larger one), often with a chain that puts the header right at a multiple of four
+                bs = rng.choice((100, 127, 128, 16290, 16383, 16384))
+                if rng.random() < 0.6:
+                    toks = ["DELTA:%d" % rng.choice((1, 4, 256))] + toks[-1:]
+                data = data[:40 * bs]
+                n, hx = len(data), hexs(data)
             if n > 200000 and bs and bs < 65536:
                 bs = 65536
             line = "mt %d %d %d %d %d %s %s" % (check, rng.choice((1, 2, 3, 4)), bs, rng.getrandbits(30), rng.choice((0, 0, 2, 3)), hx, " ".join(toks))
